@@ -1366,7 +1366,7 @@ class Engine:
             extra = {k: v for k, v in kwargs.items() if k not in known and k != '**'}
             rest = kwargs.get('**')
             kwargs = {k: v for k, v in kwargs.items() if k in known}
-            bound[fn.args.kwarg.arg] = KwArgsV(extra, rest)
+            bound[fn.args.kwarg.arg] = KwArgsV(extra, rest) if (extra or rest is not None) else EmptyDictV()
         for k, v in kwargs.items():
             bound[k] = v
         for a, d in zip(fn.args.kwonlyargs, fn.args.kw_defaults):
@@ -2073,6 +2073,8 @@ class Engine:
 
     def bi_int(self, args, kwargs, st, node):
         (x,) = args
+        if isinstance(x, NpIntV):
+            return [(st, IntV(x.t))]        # a python int: unbounded from here on
         if isinstance(x, IntV):
             return [(st, x)]
         if isinstance(x, RealV):
@@ -2081,6 +2083,13 @@ class Engine:
             fl = z3.ToInt(t)
             return [(st, IntV(z3.If(t >= 0, fl, z3.If(z3.ToReal(fl) == t, fl, fl + 1))))]
         raise Unsupported('int(%r)' % (x,))
+
+    def bi_operator_index(self, args, kwargs, st, node):
+        (x,) = args
+        if isinstance(x, IntV):
+            return [(st, IntV(x.t))]
+        self.raise_(st, self.new_exc(st, 'TypeError'))
+        return []
 
     def bi_numpy_ceil(self, args, kwargs, st, node):
         (x,) = args
@@ -2167,6 +2176,8 @@ class Engine:
         for st2, v in self.eval(node.operand, st):
             if isinstance(node.op, ast.Not):
                 res.append((st2, BoolV(z3.Not(self.truth(v)))))
+            elif isinstance(node.op, ast.USub) and isinstance(v, NpIntV):
+                res.append((st2, v.wrap(-v.t)))
             elif isinstance(node.op, ast.USub) and isinstance(v, IntV):
                 res.append((st2, IntV(-v.t)))
             elif isinstance(node.op, ast.USub) and isinstance(v, RealV):
@@ -2206,11 +2217,48 @@ class Engine:
                 res.extend(self.binop(node.op, a, b, st3, node))
         return res
 
+    def _np_binop(self, op, a, b, st, node):
+        """numpy fixed-width scalar (op) python int / same-dtype scalar, NumPy 2 promotion (NEP 50)"""
+        npv = a if isinstance(a, NpIntV) else b
+        other = b if npv is a else a
+        if isinstance(other, NpIntV) and other.dtype != npv.dtype:
+            raise Unsupported('arithmetic of numpy scalars of different dtypes')
+        res = []
+        fits = z3.And(other.t >= npv.lo, other.t <= npv.hi) if not isinstance(other, NpIntV) else smt.T
+        for s2, ok in self.branch(st, fits):
+            if not ok:
+                # "Python integer 600 out of bounds for int8"
+                self.raise_(s2, self.new_exc(s2, 'OverflowError'))
+                continue
+            x, y = a.t, b.t
+            if isinstance(op, ast.Add):
+                res.append((s2, npv.wrap(x + y)))
+            elif isinstance(op, ast.Sub):
+                res.append((s2, npv.wrap(x - y)))
+            elif isinstance(op, ast.Mult):
+                res.append((s2, npv.wrap(x * y)))
+            elif isinstance(op, (ast.FloorDiv, ast.Mod)):
+                for s3, zero in self.branch(s2, y == 0):
+                    if zero:
+                        # numpy: 0 with a RuntimeWarning
+                        res.append((s3, NpIntV(I(0), npv.lo, npv.hi, npv.dtype)))
+                    else:
+                        q = smt.fresh('q', smt.Int)
+                        r = smt.fresh('r', smt.Int)
+                        s3.pc.append(x == q * y + r)
+                        s3.pc.append(z3.If(y > 0, z3.And(r >= 0, r < y), z3.And(r <= 0, r > y)))
+                        res.append((s3, npv.wrap(q if isinstance(op, ast.FloorDiv) else r)))
+            else:
+                raise Unsupported('numpy scalar operation %s' % type(op).__name__)
+        return res
+
     def binop(self, op, a, b, st, node):
         if isinstance(a, BoolV):
             a = IntV(z3.If(a.t, I(1), I(0)))
         if isinstance(b, BoolV):
             b = IntV(z3.If(b.t, I(1), I(0)))
+        if (isinstance(a, NpIntV) or isinstance(b, NpIntV)) and isinstance(a, IntV) and isinstance(b, IntV):
+            return self._np_binop(op, a, b, st, node)
         if isinstance(a, IntV) and isinstance(b, IntV):
             if isinstance(op, ast.Add):
                 return [(st, IntV(a.t + b.t))]
